@@ -23,8 +23,14 @@ def now():
     return main.current_tt._seconds
 
 
+def fstr(t):
+    """exact text of a float; nan / inf (a corrupted queue) are reported, not raised"""
+    return str(Fr(t)) if t == t and abs(t) != float('inf') else repr(float(t))
+
+
 def num(x):
     """'i:2' int, 'z:0' float -0.0, otherwise the float of a Fraction string: explicit zeros of every kind"""
+    if x in ('inf', 'nan'): return float(x)          # a task answering inf or nan is never rescheduled
     if x.startswith('i:'): return int(x[2:])
     if x.startswith('z:'): return -0.0
     return float(Fr(x))
@@ -61,13 +67,13 @@ def run_clock(sc):
         steps = spec['steps']
 
         def one(k):
-            log.append([j, str(Fr(now()))])
+            log.append([j, fstr(now())])
             # two sites: the position of a pending wake-up in the queue vs the beat its entry carries
             for e in list(main._clock_scheduler.queue._queue):
                 ct = e[2]
                 if hasattr(ct, 'beats') and hasattr(ct, 'clock') and e[0] != ct.clock.beats2secs(ct.beats):
                     who = next((i for i, o in enumerate(objs) if o is ct.task), -1)
-                    stale.append([who, str(Fr(e[0])), str(Fr(ct.clock.beats2secs(ct.beats))), len(log) - 1])
+                    stale.append([who, fstr(e[0]), fstr(ct.clock.beats2secs(ct.beats)), len(log) - 1])
             for a in steps[k]['acts']:
                 act(a)
             r = steps[k]['ret']
